@@ -297,13 +297,13 @@ def d3b_fftn_conditions(chk, repo):
         if isinstance(st.targets[0], ast.Name):
             if isinstance(st.value, ast.Constant) and st.value.value is None:
                 chk.ob("field.Field._fftn::none-iff-unlabelled",
-                       cond_equiv(f, pt, f.ev._not(has)), "C11.D3",
+                       reached_iff(f, st, f.ev._not(has)), "C11.D3",
                        f"`{f.src(st)}` under {f.show(pt)}; expected exactly for fields without labels", f.f, st)
             elif f.eq(t, fwd_labels):
-                chk.ob("field.Field._fftn::prefix-added-iff-forward", cond_equiv(f, pt, f.ev._bool("and", [has, f.ev._not(inv)])),
+                chk.ob("field.Field._fftn::prefix-added-iff-forward", reached_iff(f, st, f.ev._bool("and", [has, f.ev._not(inv)])),
                        "C11.D3", f"'ft_' is added under {f.show(pt)}; expected: labelled field, forward transform", f.f, st)
             elif (f.ctx.head_of(t) or ("",))[0] == "seqcomp" and _strip_rule(f, f.ctx.args_of(t)[0]):
-                chk.ob("field.Field._fftn::prefix-stripped-iff-inverse", cond_equiv(f, pt, f.ev._bool("and", [has, inv])),
+                chk.ob("field.Field._fftn::prefix-stripped-iff-inverse", reached_iff(f, st, f.ev._bool("and", [has, inv])),
                        "C11.D3", f"'ft_' is stripped under {f.show(pt)}; expected: labelled field, inverse transform", f.f, st)
         elif isinstance(st.targets[0], ast.Subscript):
             keys = []
@@ -316,8 +316,8 @@ def d3b_fftn_conditions(chk, repo):
             member = f.spec("k in self.vdim_mapping", env={"k": keys[0]})
             is_inv = _strip_rule(f, t) is not None
             want_dir = inv if is_inv else f.ev._not(inv)
-            ok = cond_implies(f, pt, member) and cond_implies(f, pt, want_dir) and cond_implies(f, pt, has) and \
-                cond_implies(f, f.ev._bool("and", [has, member, want_dir]), pt)
+            ok = reached_implies(f, st, member) and reached_implies(f, st, want_dir) and reached_implies(f, st, has) and \
+                implies_reached(f, f.ev._bool("and", [has, member, want_dir]), st)
             chk.ob(f"field.Field._fftn::mapping-entry-iff-mapped-{'inverse' if is_inv else 'forward'}", ok, "C11.D3",
                    f"`{f.src(st)[:70]}` under {f.show(pt)[:160]}; expected: labelled field, the component has a mapping entry, "
                    f"{'inverse' if is_inv else 'forward'} transform", f.f, st)
@@ -359,7 +359,7 @@ def d4_inverse_mesh(chk, repo):
     from ..lib import cond_equiv, cond_implies, path_term
     for st in v.stmts():
         if isinstance(st, ast.Assign) and isinstance(st.targets[0], ast.Name) and v.eq(v.term(st.value, at=st), v.spec("self.n.copy()")):
-            chk.ob("mesh.Mesh.ifftn::default-shape-iff-none-given", cond_equiv(v, path_term(v, st), v.spec("shape is None")), "C11.D4",
+            chk.ob("mesh.Mesh.ifftn::default-shape-iff-none-given", reached_iff(v, st, v.spec("shape is None")), "C11.D4",
                    f"the default shape is chosen under {v.show(path_term(v, st))}; expected: no shape was given", v.f, st)
     rs = v.ctor_sites(REGION)
     if rs:
